@@ -599,3 +599,33 @@ package engine
 //@       result && len(*s) < old(len(*s)) && old((*s)[now(len(*s))]) == p && forall j int :: len(*s) < j && j < old(len(*s)) ==> old((*s)[j]) != p
 //@   ensures[nothing-older] p != &dummyCutParent && (forall i int :: 0 <= i && i < old(len(*s)) ==> old((*s)[i]) != p) ==> !result && len(*s) == old(len(*s))
 //@   ensures[dummy] p == &dummyCutParent ==> !result && len(*s) == 0
+
+//@ func (*promiseStack).recover
+//@   property C04
+//@   requires s != nil && err != nil
+//@   modifies heap
+//@   assume-call preserves *s, elems(*s)
+//@   at-call dynamic requires[same-error] a0 == err
+//@   loop 1 invariant len(*s) <= old(len(*s)) && backing(*s) == old(backing(*s)) && offset(*s) == old(offset(*s))
+//@   loop 1 invariant forall j int :: 0 <= j && j < len(*s) ==> (*s)[j] == old((*s)[j])
+//@   ensures[unhandled] result != nil ==> result == err && len(*s) == 0
+//@   ensures[handled-len] result == nil ==> 1 <= len(*s) && len(*s) <= old(len(*s))
+//@   ensures[handled-top] result == nil ==> (*s)[len(*s) - 1] != nil
+//@   ensures[handled-prefix] result == nil ==> forall j int :: 0 <= j && j < len(*s) - 1 ==> (*s)[j] == old((*s)[j])
+
+//@ func cut
+//@   property C03
+//@   modifies nothing
+//@   ensures[fresh] result != nil && fresh(result)
+//@   ensures[parent] result.cutParent == ite(parent == nil, &dummyCutParent, parent)
+//@   ensures[one-alternative] len(result.delayed) == 1 && result.delayed[0] == k && !result.repeat && result.recover == nil && result.err == nil
+
+//@ func (*Promise).child
+//@   property C03
+//@   requires p != nil && len(p.delayed) > 0
+//@   modifies heap
+//@   assume-call preserves p.delayed, p.repeat, elems(p.delayed)
+//@   at-call dynamic requires[leftmost] fn == p.delayed[0] && a0 == ctx
+//@   ensures[consume] !old(p.repeat) ==> len(p.delayed) == old(len(p.delayed)) - 1 && backing(p.delayed) == old(backing(p.delayed)) && offset(p.delayed) == old(offset(p.delayed)) + 1
+//@   ensures[order] !old(p.repeat) ==> forall j int :: 0 <= j && j < len(p.delayed) ==> p.delayed[j] == old(p.delayed[j + 1])
+//@   ensures[repeat] old(p.repeat) ==> len(p.delayed) == old(len(p.delayed)) && backing(p.delayed) == old(backing(p.delayed)) && offset(p.delayed) == old(offset(p.delayed)) && p.delayed[0] == old(p.delayed[0])
